@@ -30,13 +30,23 @@ def run_many(binp, stamp, arglist, timeout=120, jobs=None, tag='s', use_cache=Tr
                 pass
         r = scn.run(binp, a, timeout=timeout, tag=tag)
         r.pop('stderr', None) if r['outcome'] == 'ok' else None
-        try:
-            json.dump(r, open(cf, 'w'))
-        except Exception:
-            pass
+        if r['outcome'] != 'timeout':          # a watchdog expiry may be the machine, not the code: never remembered, and confirmed below
+            try:
+                json.dump(r, open(cf, 'w'))
+            except Exception:
+                pass
         return r
     with ThreadPoolExecutor(jobs) as ex:
-        return list(ex.map(one, arglist))
+        res = list(ex.map(one, arglist))
+    # every watchdog expiry is run again with nothing else of this batch running: only a run that does not return then either counts as a hang
+    for i, r in enumerate(res):
+        if r['outcome'] == 'timeout' and not r.get('cached'):
+            r2 = scn.run(binp, arglist[i], timeout=timeout, tag=tag)
+            r2['first_attempt'] = 'timeout under load'
+            if r2['outcome'] != 'timeout':
+                r2.pop('stderr', None) if r2['outcome'] == 'ok' else None
+            res[i] = r2
+    return res
 
 
 def describe(a):
